@@ -8,14 +8,15 @@ ID = "C19"
 LEAN_MODULES = ["MjwVerif.Props.C19"]
 GEN_FUNCS = ["math.upper_tri_index", "collision_driver._add_geom_pair", "collision_core.write_contact", "collision_core.contact_material_params", "collision_core.contact_margin_gap"]
 LEVEL_TEXT = ("Theorems, for every ngeom and all arrays: `upper_tri_index` (regenerated from math.py) is a bijection onto [0, n(n-1)/2) in triu order; put_model's pair-table block — a hand "
-              "transcription of its NumPy code (Model/PairFilter.lean), tied to the real put_model by running both on random models on every run — accepts a model iff no explicit pair lists a geom "
-              "twice (such a pair has no table slot: NotImplementedError), and for EVERY accepted model the table has at idx(g1,g2) the id of the last explicit pair listing {g1,g2}, else -1 iff the "
-              "geoms pass contype/conaffinity, lie on different weld bodies, are not parent and child (unless filterparent is off) and are not excluded, else -2; this equals the property's rule for "
+              "transcription of its NumPy code (Model/PairFilter.lean), tied to the real put_model by running both on random models (2-bit masks and masks with bit 31 set, in rotation) on every run — accepts a model iff no explicit pair lists a geom "
+              "twice (such a pair has no table slot: NotImplementedError), masks whose AND has bit 31 set (negative int32) pass the mask test (`sign_bit_mask_passes`), and for EVERY accepted model the table has at idx(g1,g2) the id of the last explicit pair listing {g1,g2}, else -1 iff the "
+              "geoms pass contype/conaffinity (non-zero AND of the 32-bit masks, bit 31 included), lie on different weld bodies, are not parent and child (unless filterparent is off) and are not excluded, else -2; this equals the property's rule for "
               "compiled models; filtered entries are never written by write_contact / never enter the NXN list / are skipped by the SAP gate; explicit pairs use the pair's "
               "margin/gap/condim/friction/solref/solimp. The reported contact pairs are compared with mujoco.mj_collision; models with a self pair must be rejected by put_model.")
 TECHNIQUE = ("Lean 4 theorems over a hand-written model of put_model's pair table (Model/PairFilter.lean) tied to the real put_model by a line-protocol correspondence on every run (tables of accepted models, and "
              "NotImplementedError <-> rejection for self pairs), plus theorems over kernels regenerated from source; oracle mujoco.mj_collision")
-LEVEL_NOTE = ("C19_partial: the NumPy block is modelled by hand (correspondence-checked). This check found that put_model wrote an explicit contact pair of a geom with itself into the table slot of an "
+LEVEL_NOTE = ("C19_partial: the NumPy block is modelled by hand (correspondence-checked; the generated models rotate through 2-bit masks, masks with bit 31 set (-1, -2147483648, mixed) and "
+              "all-geoms-overlapping layouts, so a sign-sensitive mask test in put_model breaks both the table correspondence and the mj_collision comparison on every seed). This check found that put_model wrote an explicit contact pair of a geom with itself into the table slot of an "
               "unrelated geom pair; repaired in /repo (6cb912c \"fix: put_model wrote an explicit contact pair of a geom with itself into another pair's table slot\": such pairs are rejected), the "
               "table theorem now holds for every accepted model without a distinctness hypothesis and the old witness is deleted. Still present: duplicated pairs over the same two geoms deviate "
               "from MuJoCo (C19Witness; known finding C19-duplicate-pair). Trusted: Lean kernel, tier-A/B translator, correspondence harness.")
@@ -55,9 +56,13 @@ def _run(ctx, ncases, with_model):
   acc = Acc()
   lines, expected, metas = [], [], []
   for c in range(ncases):
-    xml = cc.gen(rng)
-    if c % 4 == 1:
-      # regression input of the repaired defect (every 4th case, besides the self pairs the generator draws itself)
+    # mask mode in rotation (2-bit masks / masks with bit 31 / mixed); every second case has all geoms overlapping, which covers
+    # both bit-31 modes, so that the pairs the masks let through are seen by mj_collision as well as by the table comparison
+    mode, tight = cc.MASK_MODES[c % 4], c % 2 == 1
+    xml = cc.gen(rng, mode, tight)
+    if c % 4 == 2:
+      # regression input of the repaired defect (every 4th case - a 2-bit-mask one, the bit-31 cases stay available for the
+      # collision comparison - besides the self pairs the generator draws itself)
       xml = _with_self_pair(rng, xml) or xml
     try:
       mjm = mujoco.MjModel.from_xml_string(xml)
@@ -124,6 +129,19 @@ def _run(ctx, ncases, with_model):
     if want:
       acc.distinct.add(c)
     acc.hit("dup" if dup else "plain")
+    acc.hit("masks:" + mode)
+    if tight:
+      acc.hit("all-geoms-overlap")
+    # vacuity: which kinds of mask intersection (as int32: negative = bit 31 survives) occur at all, and which of them decide a
+    # pair that MuJoCo reports (the pair is not an explicit one, so only the masks and the body filters let it through)
+    ct, ca, wset = mjm.geom_contype.astype(np.int64), mjm.geom_conaffinity.astype(np.int64), set(want)
+    for g1 in range(mjm.ngeom):
+      for g2 in range(g1 + 1, mjm.ngeom):
+        v = int(np.int32((ct[g1] & ca[g2]) | (ct[g2] & ca[g1])))
+        kind = "negative" if v < 0 else "positive" if v > 0 else "zero"
+        acc.hit("mask-intersection-" + kind)
+        if (g1, g2) not in mult and (g1, g2) in wset:
+          acc.hit("mujoco-contact-with-" + kind + "-mask-intersection")
     if any(a > b for a, b in pairs):
       acc.hit("reversed-pair")
     acc.sample({"ngeom": int(mjm.ngeom), "npair": int(mjm.npair), "nexclude": int(mjm.nexclude), "pairs": want[:5]})
@@ -136,8 +154,9 @@ def _run(ctx, ncases, with_model):
   return acc, disagreements, len(lines)
 
 
-RULE = ("random body trees (welded bodies, 0-2 geoms per body, random 2-bit contype/conaffinity), 0-3 explicit pairs (incl. reversed, duplicated, and - drawn at random plus forced in every 4th case - "
-        "self pairs), 0-3 excludes, filterparent on/off, all geoms overlapping; (a) the real put_model vs the Lean transcription (line protocol): the table for accepted models, NotImplementedError <-> "
+RULE = ("random body trees (welded bodies, 0-2 geoms per body; contype/conaffinity in rotation: 2-bit masks, 32-bit masks with bit 31 set (-1, -2147483648, bit 31 plus low bits, -2, also 2^31-1), "
+        "both mixed per value), 0-3 explicit pairs (incl. reversed, duplicated, and - drawn at random plus forced in every 4th case - "
+        "self pairs), 0-3 excludes, filterparent on/off, every second case (covering both bit-31 modes) with all geoms overlapping; (a) the real put_model vs the Lean transcription (line protocol): the table for accepted models, NotImplementedError <-> "
         "NOTIMPL for models with a self pair, (b) accepted models: the colliding pairs vs mujoco.mj_collision; a self pair that put_model accepts is a finding; distinct = cases with contacts + "
         "distinct rejected pair lists")
 
